@@ -1140,6 +1140,8 @@ class CombineFirst(Blockwise):
 class Sample(Blockwise):
     _parameters = ["frame", "state_data", "frac", "replace"]
     operation = staticmethod(methods.sample)
+    # the random state of a task is chosen by the partition number
+    _is_partitionwise = False
 
     @functools.cached_property
     def _meta(self):
@@ -1648,6 +1650,8 @@ class Split(Elemwise):
     _parameters = ["frame", "frac", "random_state", "shuffle"]
     _keyword_only = ["random_state", "shuffle"]
     operation = staticmethod(pd_split)
+    # the random state of a task is chosen by the partition number (and count)
+    _is_partitionwise = False
 
     @functools.cached_property
     def _kwargs(self) -> dict:
